@@ -33,6 +33,12 @@ func newGate() *gate {
 	return g
 }
 
+type adder struct{ base int }
+
+func (a *adder) put(out chan<- int, v int) { out <- a.base + v }
+
+func add(out chan<- int, a, b int) { out <- a + b }
+
 // Work exercises receives (one- and two-valued, in expressions), sends, close, selects with and
 // without default, labelled selects with break and continue, Cond and WaitGroup.
 func Work(n int) (sum int, log []string) {
@@ -111,6 +117,19 @@ outer:
 		}
 		log = append(log, "after")
 	}
+	// go statements: operands are evaluated when the statement runs, not when the goroutine does
+	out := make(chan int, 3)
+	k := 5
+	go add(out, k, 1)
+	k = 50
+	g2 := &adder{base: 100}
+	go g2.put(out, k)
+	g2 = &adder{base: 1000}
+	go func(vs ...int) { out <- len(vs) }([]int{1, 2, 3}...)
+	got := <-out + <-out + <-out
+	if got == 5+1+100+50+3 {
+		log = append(log, "go")
+	}
 	var once sync.Once
 	once.Do(func() { log = append(log, "once") })
 	g.RLock()
@@ -153,8 +172,10 @@ func main() {
 	for _, h := range []*hook{nil, {answer: false}, {answer: true}} {
 		if h == nil {
 			slog.VerifLock = nil
+			slog.VerifSpawn = nil
 		} else {
 			slog.VerifLock = h
+			slog.VerifSpawn = func(f func()) { go f() }
 		}
 		for _, n := range []int{0, 1, 5, 40} {
 			s, l := slog.Work(n)
@@ -188,7 +209,7 @@ func TestRewriteKeepsMeaning(t *testing.T) {
 	must(os.WriteFile(filepath.Join(repo, "cmd", "synth", "main.go"), []byte(synthMain), 0o644))
 	rep, err := Build(Options{RepoDir: repo, OutDir: filepath.Join(dir, "ov")})
 	must(err)
-	if rep.Seams["R7"] < 12 || rep.Seams["R5"] < 2 {
+	if rep.Seams["R7"] < 12 || rep.Seams["R5"] < 2 || rep.Seams["R8"] < 5 {
 		t.Fatalf("rules found too few sites in the synthetic package: %v\n%s", rep.Seams, strings.Join(rep.Sites, "\n"))
 	}
 	run := func(args ...string) string {
@@ -212,7 +233,7 @@ func TestRewriteKeepsMeaning(t *testing.T) {
 		if !strings.HasPrefix(out, "SAME") {
 			t.Fatalf("the rewritten package behaves differently (%v):\n%s", extra, out)
 		}
-		if !strings.Contains(out, "40 820a,7,empty,s,done,once") {
+		if !strings.Contains(out, "40 820a,7,empty,s,done,go,once") {
 			t.Fatalf("unexpected result of the workload (%v):\n%s", extra, out)
 		}
 	}
